@@ -12,7 +12,7 @@ from harness.impl import base
 from tangermeme.match import extract_matching_loci
 
 W = 8
-TMP = tempfile.mkdtemp(prefix="c17-", dir=os.environ.get("VERIF_SCRATCH", "/tmp"))
+TMP = base.mkd("c17-")
 MAX_N = 0.25          # at most 2 N per tile of 8
 BINW = 0.25           # 5 GC bins; a tile with k G/C characters is in bin (k+1)//2
 
